@@ -36,6 +36,8 @@ type modelDP struct {
 	flushRouteAddedAt map[string]int // node -> first event index at which a VXLAN route via node was added while VTEP absent
 	flushVTEPRemoved  map[string]int
 	flushRouteViaNode map[string]map[string]bool // node -> dsts of VXLAN routes currently present
+
+	noFlushBoundaries bool // asynchronous mode: flush boundaries are unknown, the per-flush ordering clause is not judged
 }
 
 func newModelDP(r *core.R, name string, monitor bool, feedInSync *bool) *modelDP {
@@ -158,7 +160,7 @@ func (d *modelDP) startFlush() {
 
 // endFlush evaluates the "tunnel endpoint before route" ordering within one flush.
 func (d *modelDP) endFlush() {
-	if !d.monitor {
+	if !d.monitor || d.noFlushBoundaries {
 		return
 	}
 	for _, node := range sortedKeys(d.flushRouteAddedAt) {
@@ -280,7 +282,7 @@ func (d *modelDP) OnEvent(event interface{}) {
 	case *proto.RouteRemove:
 		k := "route|" + m.Dst
 		if old, ok := d.objs[k].(*proto.RouteUpdate); ok && isVXLANRoute(old) {
-			if at, removed := d.flushVTEPRemoved[old.DstNodeName]; removed {
+			if at, removed := d.flushVTEPRemoved[old.DstNodeName]; removed && !d.noFlushBoundaries {
 				d.viol("route_removed_before_vtep", "tunnel endpoint of node %s was removed at event %d while the VXLAN route %s via it was only removed later in the same flush", old.DstNodeName, at, m.Dst)
 			}
 		}
